@@ -1,6 +1,7 @@
 SPECIFICATION Spec
 CONSTANTS
   SbomIds = {"s0", "s1", "s2", "s3"}
+  OtherNames = {"foo", "detect.bak", "build.sh", "rebuild", "Detect", "detect-v2"}
   EmitTR = TRUE
 CHECK_DEADLOCK FALSE
 INVARIANTS DetectExit0 DetectExit100 ErrorHandledOnce BuildWritesExactlyProvided GuardsBeforeUserCode RightPhase
